@@ -550,6 +550,20 @@ func (r *posRunner) hooks() *chain.Hooks {
 						r.report("C09", "jailed-in-set|"+r.setContext(st), fmt.Sprintf("height %d: jailed validator %s has power %d in Tendermint's set", d.Height, shortAddr(string(tv.Addr)), tv.Power))
 					}
 				}
+				// a validator that was jailed at some time and is staked and unjailed now has exactly the
+				// power of its remaining stake, subject to the MaxValidators cut-off
+				for a, v := range st.Vals {
+					if !v.Exists || v.Status != posmodel.Staked || v.Jailed || !v.HasInfo || !v.Until.After(time.Unix(0, 0)) {
+						continue
+					}
+					ei, gi := exp.Find([]byte(a)), got.Find([]byte(a))
+					switch {
+					case ei < 0 && gi >= 0:
+						r.report("C09", "unjailed-beyond-the-cut-off-has-power", fmt.Sprintf("height %d: validator %s (jailed earlier, unjailed now) ranks below the top-%d but has power %d in Tendermint's set {%s}", d.Height, shortAddr(a), st.P.MaxVals, got[gi].Power, setString(got)))
+					case ei >= 0 && (gi < 0 || got[gi].Power != exp[ei].Power):
+						r.report("C09", "unjailed-power", fmt.Sprintf("height %d: validator %s (jailed earlier, unjailed now) must have power %d; Tendermint's set is {%s}", d.Height, shortAddr(a), exp[ei].Power, setString(got)))
+					}
+				}
 			}
 		},
 	}
